@@ -21,9 +21,12 @@
 (* Properties D1..D5 (module DuoProps) are evaluated at the points the harness evaluates them;   *)
 (* violations accumulate in w.v. The code's known deviations are modelled as the code behaves:   *)
 (* BroadcastBeforePersist (crash between a wallet broadcast and the next store write),           *)
-(* OutcomeUnknown (the taker gives up a claim payment whose HTLC is still pending),              *)
-(* RequestIdRefusal (a request carrying a known swap id is answered with cancel - also when it   *)
-(* is the duplicate of the request that created the swap).                                       *)
+(* OutcomeUnknown (the taker gives up a claim payment whose HTLC is still pending).               *)
+(* Network: every custom message is delivered at most once, may be lost or delayed; only        *)
+(* opening_tx_broadcasted - which peerswap itself retransmits - is duplicated between honest    *)
+(* parties (steps dup / retx). The step advdup (a node sends any message twice) is adversarial  *)
+(* behaviour: a request carrying a known swap id is refused with cancel, as C09 / C11 demand;   *)
+(* from then on D2 and D5 (properties of honest parties) are not judged, D1 / D3 / D4 are.      *)
 EXTENDS DuoProps, DuoCfgs, SequencesExt
 
 VARIABLES w, cf, sched
@@ -54,11 +57,11 @@ NodeInit == [up |-> TRUE, reg |-> FALSE, mem |-> NoData, disk |-> NoData, timers
              snd |-> FALSE, lastotb |-> None]
 Down(n) == [n EXCEPT !.up = FALSE, !.reg = FALSE, !.mem = NoData, !.timers = {}, !.notif = {}, !.wconf = None, !.wcsv = None, !.snd = FALSE, !.lastotb = None]
 
-NoBudget == [steps |-> 0, restarts |-> 0, dups |-> 0, drops |-> 0, ticks |-> 0, retx |-> 0, faults |-> 0, crashes |-> 0, blocks |-> 0]
+NoBudget == [steps |-> 0, restarts |-> 0, dups |-> 0, advdups |-> 0, drops |-> 0, ticks |-> 0, retx |-> 0, faults |-> 0, crashes |-> 0, blocks |-> 0]
 WInit == [nd |-> [A |-> NodeInit, B |-> NodeInit], net |-> [AB |-> <<>>, BA |-> <<>>], tip |-> BaseTip, txs |-> <<>>,
           fee |-> [ex |-> FALSE, st |-> "none", paid |-> FALSE, issued |-> 0, payee |-> ""], cinv |-> <<>>, now |-> 0,
           q |-> <<>>, occ |-> <<>>, f |-> None, c |-> None, crashes |-> FALSE, faults |-> FALSE, seen |-> [A |-> {}, B |-> {}],
-          lossyTo |-> [A |-> FALSE, B |-> FALSE], idr |-> [A |-> FALSE, B |-> FALSE],
+          lossyTo |-> [A |-> FALSE, B |-> FALSE], adv |-> FALSE,
           lostopen |-> [A |-> FALSE, B |-> FALSE], lostspend |-> [A |-> FALSE, B |-> FALSE], opened |-> {}, closed |-> "", b |-> NoBudget, v |-> {}]
 
 (* ------------------------------------------------------- run context -- *)
@@ -428,13 +431,12 @@ Deliver(ww, dir, pop) ==
       w0 == IF pop THEN [ww EXCEPT !.net[dir] = Tail(@)] ELSE ww
   IN IF ~w0.nd[to].up THEN [w0 EXCEPT !.lossyTo[to] = TRUE] ELSE       \* delivered to a stopped node: lost
   LET dup == m \in w0.seen[to]
-      idc == m.k = "cancel" /\ m.c.why = "inuse"
-      w1 == [w0 EXCEPT !.seen[to] = @ \cup {m}, !.idr[to] = @ \/ (idc /\ w0.nd[to].reg)]
+      w1 == [w0 EXCEPT !.seen[to] = @ \cup {m}]
       pre == IF ~w1.nd[to].reg THEN "" ELSE IF w1.nd[to].mem.cur = "" THEN "-" ELSE w1.nd[to].mem.cur
       role == IF m.k \in ReqKinds THEN RoleOfReq(m.k) ELSE w1.nd[to].mem.role
       keychk == IF m.k = "coop_close" THEN ChkCoopRecv(ClaimAgg(w1), w1.crashes, w1.faults) ELSE {}
       r == OnPeerMessage(Ctx(w1, to), m)
-      chk == IF r.crashed THEN {} ELSE ChkRecv(m.k, IF idc THEN "cancel-id-in-use" ELSE m.k, dup, r.res, pre, r.first, r.sent, role, w1.lossyTo[to], w1.crashes \/ w1.faults)
+      chk == IF r.crashed \/ w1.adv THEN {} ELSE ChkRecv(m.k, dup, r.res, pre, r.first, r.sent, role, w1.lossyTo[to], w1.crashes \/ w1.faults)
   IN [r.w EXCEPT !.v = @ \cup keychk \cup chk]
 
 RECURSIVE Flush(_, _)
@@ -466,7 +468,7 @@ ResolveHtlc(ww, settle) ==
 
 RetxTick(ww, n) ==
   IF ~ww.nd[n].up \/ ~ww.nd[n].snd \/ ww.nd[n].lastotb = None THEN ww
-  ELSE SendMsg(Viol(Ctx(ww, n), ChkRetx(ww.nd[n].disk.cur)), ww.nd[n].lastotb).w
+  ELSE SendMsg(Viol(Ctx(ww, n), IF ww.adv THEN {} ELSE ChkRetx(ww.nd[n].disk.cur)), ww.nd[n].lastotb).w
 
 \* properties judged at the quiescent end of every step
 TxsPub(ww) == [k \in 1..Len(ww.txs) |-> [owner |-> ww.txs[k].owner, conf |-> ww.txs[k].conf, spent |-> ww.txs[k].spent, by |-> ww.txs[k].by,
@@ -490,7 +492,7 @@ EndChecks(ww) ==
       taker == OtherNode(maker)
   IN ChkEndAtomic(TxsPub(ww), RecOf(ww, maker), RecOf(ww, taker), ww.lostopen[maker], ww.lostspend[taker], ww.crashes, ww.faults)
      \cup ChkEndPaid(\E i \in 1..Len(ww.cinv) : ww.cinv[i].paid, RecOf(ww, taker), ww.lostspend[taker], ww.crashes, ww.faults)
-     \cup ChkEndNode(RecOf(ww, "A"), ActOf(ww, "A"), ww.nd.A.up, ww.lostspend.A, ww.idr.A) \cup ChkEndNode(RecOf(ww, "B"), ActOf(ww, "B"), ww.nd.B.up, ww.lostspend.B, ww.idr.B)
+     \cup (IF ww.adv THEN {} ELSE ChkEndNode(RecOf(ww, "A"), ActOf(ww, "A"), ww.nd.A.up, ww.lostspend.A) \cup ChkEndNode(RecOf(ww, "B"), ActOf(ww, "B"), ww.nd.B.up, ww.lostspend.B))
 
 \* a finished swap leaves the registry; its in-memory copy is garbage
 Normalize(ww) == [ww EXCEPT !.nd = [n \in {"A", "B"} |-> IF ww.nd[n].reg THEN ww.nd[n] ELSE [ww.nd[n] EXCEPT !.mem = NoData]],
@@ -503,6 +505,7 @@ StepHit(ww, st) ==
                                   THEN LocalInit(Ctx(w0, st.n), st.typ).w ELSE w0
               [] st.a = "deliver" -> Deliver(w0, st.d, TRUE)
               [] st.a = "dup" -> Deliver(w0, st.d, FALSE)
+              [] st.a = "advdup" -> Deliver([w0 EXCEPT !.adv = @ \/ w0.net[st.d] # <<>>], st.d, FALSE)
               [] st.a = "drop" -> IF w0.net[st.d] = <<>> THEN w0 ELSE [w0 EXCEPT !.net[st.d] = Tail(@), !.lossyTo[IF st.d = "AB" THEN "B" ELSE "A"] = TRUE]
               [] st.a = "dropall" -> [w0 EXCEPT !.net = [AB |-> <<>>, BA |-> <<>>], !.lossyTo.B = @ \/ w0.net.AB # <<>>, !.lossyTo.A = @ \/ w0.net.BA # <<>>]
               [] st.a = "flush" -> Flush(w0, 12)
@@ -558,8 +561,11 @@ PlanHit(pl, e) ==
 
 BaseSteps(ww) ==
   (IF ww.b.steps = 0 THEN {[S0("init") EXCEPT !.n = cf.init, !.typ = cf.typ]} ELSE
-   {[S0(a) EXCEPT !.d = d] : a \in {"deliver"} \cup (IF ww.b.drops < cf.drops THEN {"drop"} ELSE {}) \cup (IF ww.b.dups < cf.dups THEN {"dup"} ELSE {}),
-                            d \in {x \in Dirs : ww.net[x] # <<>>}}
+   {[S0(a) EXCEPT !.d = d] : a \in {"deliver"} \cup (IF ww.b.drops < cf.drops THEN {"drop"} ELSE {}), d \in {x \in Dirs : ww.net[x] # <<>>}}
+   \cup (IF ww.b.dups < cf.dups      \* the honest network duplicates only what peerswap retransmits
+         THEN {[S0("dup") EXCEPT !.d = d] : d \in {x \in Dirs : ww.net[x] # <<>> /\ Head(ww.net[x]).k = "opening_tx_broadcasted"}} ELSE {})
+   \cup (IF ww.b.advdups < cf.advdups   \* adversarial: a node sends a message (other than the retransmitted one) twice
+         THEN {[S0("advdup") EXCEPT !.d = d] : d \in {x \in Dirs : ww.net[x] # <<>> /\ Head(ww.net[x]).k # "opening_tx_broadcasted"}} ELSE {})
    \cup (IF HeightMatters(ww) /\ ww.b.blocks < cf.blocks
          THEN {[S0("block") EXCEPT !.nb = p[1], !.incl = p[2]] : p \in {<<MinConf, TRUE>>, <<Window, FALSE>>, <<CsvBlocks, TRUE>>}} ELSE {})
    \cup (IF ww.b.ticks < cf.ticks THEN {S0("tick")} ELSE {})
@@ -568,7 +574,7 @@ BaseSteps(ww) ==
    \cup {[S0("restart") EXCEPT !.n = n] : n \in {m \in {"A", "B"} : ~ww.nd[m].up}}
    \cup (IF \E i \in 1..Len(ww.cinv) : ww.cinv[i].st = "inflight" THEN {[S0("htlc") EXCEPT !.k = k] : k \in {"settle", "fail"}} ELSE {}))
 
-Bump(b, st) == [b EXCEPT !.steps = @ + 1, !.restarts = @ + (IF st.a = "restart" THEN 1 ELSE 0), !.dups = @ + (IF st.a = "dup" THEN 1 ELSE 0),
+Bump(b, st) == [b EXCEPT !.steps = @ + 1, !.restarts = @ + (IF st.a = "restart" THEN 1 ELSE 0), !.dups = @ + (IF st.a = "dup" THEN 1 ELSE 0), !.advdups = @ + (IF st.a = "advdup" THEN 1 ELSE 0),
                          !.drops = @ + (IF st.a = "drop" THEN 1 ELSE 0), !.ticks = @ + (IF st.a = "tick" THEN 1 ELSE 0), !.retx = @ + (IF st.a = "retx" THEN 1 ELSE 0),
                          !.blocks = @ + (IF st.a = "block" THEN 1 ELSE 0),
                          !.faults = @ + (IF st.f # None THEN 1 ELSE 0), !.crashes = @ + (IF st.c # None THEN 1 ELSE 0)]
